@@ -3,6 +3,7 @@
   Property theorems only; helper lemmas live in Lemmas/IE.lean.
 -/
 import IpfixModel.Lemmas.IE
+import IpfixModel.Spec.C15
 namespace Ipfix.C15
 
 /-! ## Tie lemmas: the hand-written model agrees with the regenerated facts -/
@@ -42,14 +43,6 @@ theorem encode_length {ie : IE} {v : Value} {bs : Bytes} (h : encodeElem ie v = 
   case ipv4Address.bytes b => obtain ⟨rfl, h⟩ := h; exact to4_length h
   case ipv6Address.bytes b => obtain ⟨rfl, h⟩ := h; exact to16_length h
   all_goals (obtain ⟨⟨rfl, _⟩, rfl⟩ := h; simp)
-
-/-- canonical form of a value after one trip over the wire: an IP address comes back in its
-    4- resp. 16-byte form (`net.IP.To4` / `To16`, the same address); everything else is unchanged. -/
-def canon (ie : IE) (v : Value) : Value :=
-  match ie.ty, v with
-  | .ipv4Address, .bytes b => .bytes ((to4 b).getD b)
-  | .ipv6Address, .bytes b => .bytes ((to16 b).getD b)
-  | _, v => v
 
 /-! ## Round trip -/
 
